@@ -84,6 +84,16 @@ REDUCE = {
     "len": lambda a: len(a) if isinstance(a, list) else 1,
     "size": lambda a: len(a) if isinstance(a, list) else 1,
 }
+def _npdiv(a, b):
+    """numpy's float division: x / 0 is +-inf (nan for 0 / 0)"""
+    try:
+        return a / b
+    except ZeroDivisionError:
+        if a == 0 or a != a:
+            return float("nan")
+        return float("inf") if a > 0 else float("-inf")
+
+
 def _deg(x):
     return x * 180.0 / math.pi
 
@@ -95,6 +105,8 @@ def _rad(x):
 BINARY = {"arctan2": math.atan2, "atan2": math.atan2, "hypot": math.hypot}
 UNARY = {
     "cos": math.cos, "sin": math.sin, "tan": math.tan, "radians": _rad,
+    "arctan": math.atan, "atan": math.atan, "arcsin": math.asin,
+    "arccos": math.acos,
     "degrees": _deg, "deg2rad": _rad, "rad2deg": _deg,
     "abs": abs, "fabs": abs, "absolute": abs,
     "isfinite": lambda x: math.isfinite(x), "isnan": lambda x: x != x,
@@ -108,7 +120,7 @@ CMP = {ast.Lt: lambda a, b: a < b, ast.LtE: lambda a, b: a <= b,
        ast.Gt: lambda a, b: a > b, ast.GtE: lambda a, b: a >= b,
        ast.Eq: lambda a, b: a == b, ast.NotEq: lambda a, b: a != b}
 BIN = {ast.Add: lambda a, b: a + b, ast.Sub: lambda a, b: a - b,
-       ast.Mult: lambda a, b: a * b, ast.Div: lambda a, b: a / b,
+       ast.Mult: lambda a, b: a * b, ast.Div: lambda a, b: _npdiv(a, b),
        ast.BitAnd: lambda a, b: (a & b) if _ints(a, b)
        else (bool(a) and bool(b)),
        ast.BitOr: lambda a, b: (a | b) if _ints(a, b)
@@ -202,6 +214,19 @@ def ev(e, env):
     if isinstance(e, ast.Call):
         fn = norm(e.func)
         short = fn.split(".")[-1]
+        # a helper of the analysed module (the rule supplies the candidates
+        # under env["__funcs__"]): interpreted on the evaluated arguments
+        funcs = env.get("__funcs__") or {}
+        if isinstance(e.func, ast.Name) and e.func.id in funcs and \
+                not e.keywords:
+            hn = funcs[e.func.id]
+            ps = [a.arg for a in hn.args.args]
+            if len(e.args) <= len(ps):
+                henv = {"__funcs__": funcs}
+                for p_, a_ in zip(ps, e.args):
+                    henv[p_] = ev(a_, env)
+                out_, _ = call(hn, henv)
+                return out_
         if isinstance(e.func, ast.Attribute) and e.func.attr == "format" \
                 and isinstance(e.func.value, ast.Constant) and \
                 isinstance(e.func.value.value, str) and not e.keywords:
